@@ -97,6 +97,23 @@ def lost_key(kind, state, ctxt):
     return "lost:%s:%s-message-%s" % (kind, state, ctxt)
 
 
+def first_missing(before):
+    """the first client message the backend must have received but did not (messages sent
+    before a `lose` event were meant for the backend that is gone: optional)"""
+    opt, sent, got = 0, [], set()
+    for x in before:
+        if x.get("ev") == "csend":
+            sent.append(x.get("k"))
+        elif x.get("ev") == "lose":
+            opt = len(sent)
+        elif x.get("ev") == "brecv":
+            got.add(x.get("k"))
+    for k in sent:
+        if k not in got and k > opt:
+            return k
+    return None
+
+
 def classify(rj):
     run, bad = rj["run"], rj["bad"] or {}
     reset = run[0] if run else {}
@@ -117,12 +134,14 @@ def classify(rj):
             hb = sum(x.get("n", 0) for x in held) + bad.get("n", 0)
             if k in pre and (len(held) + 1 > 1024 or hb > 4 * 1024 * 1024):
                 return "held-more-than-the-caps:%s:%d-messages,%d-bytes" % (kind, len(held) + 1, hb)
-        st = next((x.get("state") for x in before if x.get("ev") == "csend" and x.get("k") == got + 1), "?")
-        return lost_key(kind, st, context(reset, got + 1))
+        miss = first_missing(before)
+        st = next((x.get("state") for x in before if x.get("ev") == "csend" and x.get("k") == miss), "?")
+        return lost_key(kind, st, context(reset, miss))
     if ev == "end":
-        if bad.get("alive") and got < sent:
-            st = next((x.get("state") for x in before if x.get("ev") == "csend" and x.get("k") == got + 1), "?")
-            return lost_key(kind, st, context(reset, got + 1))
+        miss = first_missing(before)
+        if bad.get("alive") and miss is not None:
+            st = next((x.get("state") for x in before if x.get("ev") == "csend" and x.get("k") == miss), "?")
+            return lost_key(kind, st, context(reset, miss))
         if bad.get("alive"):
             return "no-disconnect:%s:count=%s,size=%s,last=%s" % (kind, reset.get("count"), reset.get("size"),
                                                                   reset.get("last"))
